@@ -78,6 +78,16 @@ fn extended_alphabet(thorough: bool) -> Vec<V> {
     v.push(V::U128(1u128 << 127));
     v.push(V::U128(u128::MAX - 1));
     v.push(V::F64(3.402823669209385e38)); // 2^128 as a double
+    // negative floats with a fraction next to the integers they truncate / floor to
+    v.push(V::F64(-0.5));
+    v.push(V::F64(-1.5));
+    v.push(V::I64(-2));
+    v.push(V::I128(-3));
+    // arrays equal up to and including an (incomparable) map / nested array with a map, differing after it
+    v.push(V::Arr(vec![V::map(&[("a", V::I64(1))]), V::s("x")]));
+    v.push(V::Arr(vec![V::map(&[("a", V::I64(1))]), V::s("y")]));
+    v.push(V::Arr(vec![V::Arr(vec![V::map(&[("a", V::I64(1))])]), V::I64(1)]));
+    v.push(V::Arr(vec![V::Arr(vec![V::map(&[("a", V::I64(1))])]), V::I64(2)]));
     if thorough {
         for i in [-3i64, 4, 5, 10, i64::MAX] {
             v.push(V::I64(i));
